@@ -677,6 +677,10 @@ pub const LIBRARY: &[&str] = &[
     "2g\n +-----------------+\n8| r r r r r r r r |\n7| h d c e m c d h |\n6|     x     x     |\n5|                 |\n4|                 |\n3|     x     x     |\n2| H D C M E C D H |\n1| R R R R R R R R |\n +-----------------+\n   a b c d e f g h\n",
     // both sides a step from goal, traps occupied with single supporters
     "23s\n +-----------------+\n8|                 |\n7|       R         |\n6|     C D   x     |\n5|                 |\n4|                 |\n3|     x   d c     |\n2|         r       |\n1|                 |\n +-----------------+\n   a b c d e f g h\n",
+    // self-blockade without any enemy contact: a complete two-rank wall cannot move at all
+    "40g\n +-----------------+\n8| H D C M E C D H |\n7| R R R R R R R R |\n6|     x     x     |\n5|                 |\n4|                 |\n3|     x     x     |\n2| r   e           |\n1|                 |\n +-----------------+\n   a b c d e f g h\n",
+    // the same wall one step before it closes (the last rabbit steps in, then the turn passes)
+    "38g\n +-----------------+\n8| H D C M E C D H |\n7| R R R R R R R   |\n6|     x     x R   |\n5|                 |\n4|                 |\n3|     x     x     |\n2| r   e           |\n1|                 |\n +-----------------+\n   a b c d e f g h\n",
     // immobilised side to move: gold's only pieces are frozen
     "30g\n +-----------------+\n8|                 |\n7|                 |\n6|     x     x     |\n5|                 |\n4|   e             |\n3| r R x     x     |\n2| c               |\n1|                 |\n +-----------------+\n   a b c d e f g h\n",
 ];
